@@ -1,4 +1,5 @@
 HARNESSES = [
     dict(name='chk'),
     dict(name='num'),
+    dict(name='timeh', need_lib=True),
 ]
